@@ -43,7 +43,7 @@ pub fn gen_pattern(rng: &mut Rng) -> J {
     let mut rounds = Vec::new();
     for i in 0..period {
         let k = ms[(i + rot) % period];
-        let style = *rng.pick(&["put_slice", "extend", "scribble", "resize", "put_bytes", "split_off_unsplit", "reserve_put"]);
+        let style = *rng.pick(&["put_slice", "extend", "scribble", "resize", "put_bytes", "split_off_unsplit", "reserve_put", "extend_iter", "extend_unhinted", "extend_ref"]);
         let consume = *rng.pick(&["split_to", "split_to", "advance", "advance", "truncate", "copy_to_bytes", "split_to_freeze", "split_to_into_vec", "split_freeze_into_vec"]);
         rounds.push(
             J::obj()
@@ -58,6 +58,24 @@ pub fn gen_pattern(rng: &mut Rng) -> J {
                 // park the (possibly empty) recycling handle as Bytes and take it back *before* the refill
                 .set("rt_before", if window == 0 && rng.chance(1, 6) { *rng.pick(&["freeze_try_into_mut", "freeze_from"]) } else { "none" }),
         );
+    }
+    // "exact" family (1 in 10): every message fills the initial capacity to the last byte and is taken
+    // out whole - the double equality (len == capacity == request) fast paths like to hang on
+    if rng.chance(1, 10) {
+        let c = *rng.pick(&[16usize, 64, 1024, 4096]);
+        let rounds: Vec<J> = rounds
+            .into_iter()
+            .map(|r| {
+                let mut r = r;
+                r.put("m", c);
+                r.put("k", c);
+                r.put("extra_reserve", 0usize);
+                r.put("style", *rng.pick(&["put_slice", "extend", "resize", "put_bytes", "reserve_put"]));
+                r.put("consume", *rng.pick(&["copy_to_bytes", "copy_to_bytes", "split_to", "advance", "split_to_freeze"]));
+                r
+            })
+            .collect();
+        return J::obj().set("init_cap", c).set("leftover", 0usize).set("window", 0usize).set("period", J::Arr(rounds));
     }
     // "park" family (1 in 10): the handle is emptied without moving its front (truncate to 0)
     // and parked as Bytes / taken back before every refill — the recycling idiom of a pool
@@ -199,7 +217,10 @@ pub fn run_pattern(p: &J, limit: u64, seed: u64) -> Out {
                 }
                 // (iii) reserve on an empty handle that is alone on a big enough block never allocates
                 let mut sole_probe = false;
-                if buf.is_empty() && retained.is_empty() {
+                // (every style but the unhinted Extend asks for the whole message at once, by reserve
+                // or by a call that reserves first; byte-by-byte growth is not "a reserve that is large enough")
+                let reserves_whole_message = !(spec.str("style") == Some("extend_unhinted") && m <= 512);
+                if buf.is_empty() && retained.is_empty() && reserves_whole_message {
                     if let Some(b) = alloc::lookup(buf.as_ptr() as usize).filter(|b| b.live) {
                         if b.align == 1 && b.size >= m + extra {
                             sole_probe = true;
@@ -208,6 +229,11 @@ pub fn run_pattern(p: &J, limit: u64, seed: u64) -> Out {
                 }
                 match spec.str("style").unwrap_or("put_slice") {
                     "extend" => buf.extend_from_slice(&src[..m]),
+                    // the Extend impls (byte by byte): exact size hint, no lower bound, by reference;
+                    // only for short messages (a 20 000-byte message costs 20 000 calls per round)
+                    "extend_iter" if m <= 512 => buf.extend(src[..m].iter().copied()),
+                    "extend_unhinted" if m <= 512 => buf.extend(src[..m].iter().copied().filter(|_| true)),
+                    "extend_ref" if m <= 512 => buf.extend(src[..m].iter()),
                     "scribble" => {
                         buf.reserve(m + extra);
                         let sp = buf.spare_capacity_mut();
